@@ -33,7 +33,7 @@ func CompressorStrategy(near int64) MergeStrategy {
 		for c := 1; c < len(chunks); c++ {
 			leftChunk := chunks[c-1]
 			rightChunk := &chunks[c]
-			if leftChunk.End.File+near >= rightChunk.Begin.File {
+			if rightChunk.Begin.File-leftChunk.End.File <= near {
 				rightChunk.Begin = leftChunk.Begin
 				if vOffset(leftChunk.End) > vOffset(rightChunk.End) {
 					rightChunk.End = leftChunk.End
